@@ -20,6 +20,7 @@ import (
 const crashSDL = `
 enum Color { RED GREEN }
 input In { a: Int  b: [String!]  c: In  d: Color = RED  e: Float  f: Boolean! = true }
+input GIn { name: String  tags: [String]  nums: [Int]  big: [Int64!]  flags: [Boolean]  sub: GIn  subs: [GIn]  when: Time  col: Color }
 interface Named { str: String }
 union Any = Query | Other
 type Other implements Named { str: String num: Int }
@@ -49,6 +50,7 @@ type Query implements Named {
   listers: [Lister]
   stray: Lister
   strays: [Lister]
+  ginp(in: GIn, ins: [GIn]): String
 }
 interface Lister { items(first: Int): String sub: Lister }
 type LA implements Lister { items(after: String, first: Int, tags: [String!] = ["t"]): String sub: LA }
@@ -110,6 +112,28 @@ func (l *RLA) Items(after interface{}, first interface{}, tags interface{}) stri
 	return fmt.Sprint("la", after, first, tags)
 }
 func (l *RLB) Items(first interface{}) string { return fmt.Sprint("lb", first) }
+
+// GIn is the Go struct the input type GIn is bound to under reflection (RegisterType): its members
+// are filled from the request by reflection, lists member by member.
+type GIn struct {
+	Name  string
+	Tags  []string
+	Nums  []int32
+	Big   []int64
+	Flags []bool
+	Sub   *GIn
+	Subs  []*GIn
+	When  time.Time
+	Col   ggql.Symbol
+}
+
+func (q *RQ) Ginp(in *GIn, ins []interface{}) string {
+	n := len(ins)
+	for g := in; g != nil; g = g.Sub {
+		n += len(g.Tags) + len(g.Nums) + len(g.Subs)
+	}
+	return fmt.Sprint("ginp", n)
+}
 
 // RStray is nobody's implementation: no object type is named like it, registered for it or points
 // at it with @go.
@@ -258,6 +282,7 @@ func NewRoots() (map[string]*ggql.Root, error) {
 	_ = r.RegisterType(&ROther{}, "Other")
 	_ = r.RegisterType(&RLA{}, "LA")
 	_ = r.RegisterType(&RLB{}, "LB")
+	_ = r.RegisterType(&GIn{}, "GIn")
 	roots["reflection"] = r
 	r = ggql.NewRoot(&resNode{})
 	if err := r.ParseString(crashSDL); err != nil {
